@@ -42,13 +42,13 @@ def jumpy_prices(draw, n, tickers):
 
 
 @st.composite
-def run_spec(draw):
+def run_spec(draw, kinds=("flat", "flat", "nested", "nested", "fi")):
     ds = draw(gen.dates(3, 12, kinds=("bday", "daily", "mixed")))
     n = len(ds)
     nt = draw(st.integers(1, 4))
     tickers = gen.TICKERS[:nt]
     pr = draw(jumpy_prices(n, tickers))
-    kind = draw(st.sampled_from(["flat", "flat", "nested", "nested", "fi"]))
+    kind = draw(st.sampled_from(list(kinds)))
     spy = ["Probe", {"key": "c16spy", "run_always": True}]
     gate = draw(st.sampled_from([["RunDaily", {}], ["RunOnce", {}], ["RunWeekly", {}], ["RunMonthly", {}]]))
     spec = {"dates": ds, "prices": pr, "rng_seed": 0, "frames": {}, "additional": [], "kind": kind}
@@ -62,6 +62,11 @@ def run_spec(draw):
             spec["frames"]["coupons"] = {"kind": "frame", "cols": {t: [draw(st.sampled_from([0.0, 0.5, 2.0, 5.0, -1.0])) * gen.min_price({t: pr[t]}) / 50.0 for _ in range(n)] for t in tickers}}
             spec["additional"] = ["coupons"]
             spec["carry"] = True
+        if draw(st.integers(0, 2)) == 0:
+            # a stack that trades in two steps: a bankruptcy declared during the first one must stop the second from re-opening anything
+            ks2 = draw(st.lists(st.sampled_from(tickers), min_size=1, max_size=nt, unique=True))
+            node["algos"] += [["WeighSpecified", {"weights": draw(lev_weights(ks2))}], ["Rebalance", {}]]
+            spec["two_step"] = True
         spec["tree"] = node
     elif kind == "nested":
         subs = []
@@ -86,6 +91,10 @@ def run_spec(draw):
     spec["integer_positions"] = draw(st.booleans())
     spec["initial_capital"] = draw(st.sampled_from([1e6, 1e5, 1e7])) if kind != "fi" else draw(st.sampled_from([1000.0, 1e6]))
     spec["fee"] = draw(gen.fee_spec(gen.min_price(pr)))
+    if kind != "fi" and draw(st.integers(0, 5)) == 0:
+        # ruinous ticket charges: the costs of trading alone can drive the value through zero
+        spec["fee"] = {"kind": "fixed", "f": spec["initial_capital"] * draw(st.sampled_from([0.2, 0.6, 2.0]))}
+        spec["ruinous_fee"] = True
     bo = draw(gen.bidoffer(n, tickers, pr))
     if bo is not None:
         spec["bidoffer"] = bo
@@ -103,7 +112,7 @@ def case_run(ctx, spec):
 
     interp.Probe.registry["c16spy"] = cb
     try:
-        b = interp.mk_backtest(bt, {k: v for k, v in spec.items() if k not in ("kind", "carry")})
+        b = interp.mk_backtest(bt, {k: v for k, v in spec.items() if k not in ("kind", "carry", "two_step", "ruinous_fee")})
         holder["root"] = b.strategy
         try:
             b.run()
@@ -142,7 +151,7 @@ def case_run(ctx, spec):
             if isinstance(sec, bt.core.CouponPayingSecurity):
                 m_ += float(np.asarray(sec.coupons, dtype=float)[t - 1]) - float(np.asarray(sec.holding_costs, dtype=float)[t - 1])
         M[t] = m_
-    labs = [spec["kind"]] + (["nested"] if spec["kind"] == "nested" else []) + (["carry"] if spec.get("carry") else [])
+    labs = [spec["kind"]] + (["nested"] if spec["kind"] == "nested" else []) + (["carry"] if spec.get("carry") else []) + (["two_step"] if spec.get("two_step") else []) + (["ruinous_fee"] if spec.get("ruinous_fee") else [])
     for m in strats:
         if m is not s and m.bankrupt:
             raise Violation("sub-strategy %s was flagged bankrupt" % m.full_name, signature="c16:sub-flagged")
